@@ -79,7 +79,10 @@ InitState == [now |-> 2, ch |-> [c \in Chains |-> InitChainWith(1, InitProv)]]
 (* Light client (same abstraction as IBCPacket.tla)                        *)
 (***************************************************************************)
 Latest(S, c)      == MaxOf(S.ch[c].cons)
-CpTime(S, c, p)   == IF p < 0 THEN 0 ELSE IF p > S.ch[Cp(c)].h THEN S.now + 1 ELSE S.ch[Cp(c)].bt[p]
+\* blocks before the run started (p < 0: the heights the clients were created at) lie 4 s before tick 0 in the
+\* harness' set-up (a few ms after it, hence -7: expired at t iff t >= TP - 7)
+PreRunTime        == -7
+CpTime(S, c, p)   == IF p < 0 THEN PreRunTime ELSE IF p > S.ch[Cp(c)].h THEN S.now + 1 ELSE S.ch[Cp(c)].bt[p]
 Status(S, c, t)   ==
     IF S.ch[c].frozen THEN "Frozen"
     ELSE IF S.ch[c].cons = {} THEN "Expired"
